@@ -49,7 +49,7 @@ func TestC14(t *testing.T) { ev.Check(t, "C14", "seq", genC14, ExecC14) }
 // state "more than one full directory is registered at once" only exists right after an open.
 func genC17Fill(t *rapid.T) Case {
 	c := Case{Prof: "c17", Roots: 1, MaxDir: rapid.SampledFrom([]uint64{0, 100, 101}).Draw(t, "limit"), Keys: []string{"a", "b", "c"},
-		RootStyle: rapid.SampledFrom([]int{0, 0, 1}).Draw(t, "rootStyle")}
+		RootStyle: rapid.SampledFrom([]int{0, 0, 1}).Draw(t, "rootStyle"), Foreign: rapid.IntRange(0, 3).Draw(t, "foreign") == 0}
 	for n := rapid.IntRange(2, 4).Draw(t, "bursts"); n > 0; n-- {
 		c.Ops = append(c.Ops, Op{K: "burst", N: rapid.IntRange(95, 130).Draw(t, "n")})
 	}
@@ -72,6 +72,7 @@ func genC17(t *rapid.T) Case {
 	c := Case{Prof: "c17", Roots: rapid.IntRange(1, 3).Draw(t, "roots"), MaxDir: rapid.SampledFrom([]uint64{0, 1, 99, 100, 101, 150}).Draw(t, "limit"),
 		RootStyle: rapid.SampledFrom([]int{0, 0, 1, 2, 3}).Draw(t, "rootStyle")}
 	c.Keys = GenKeys(t, 1, 3, false)
+	c.Foreign = rapid.IntRange(0, 2).Draw(t, "foreign") == 0
 	n := rapid.IntRange(2, 14).Draw(t, "nops")
 	for i := 0; i < n; i++ {
 		k := rapid.SampledFrom([]string{"burst", "burst", "burst", "delburst", "delburst", "gc", "reopen", "set", "del", "droproot"}).Draw(t, "kind")
